@@ -72,10 +72,18 @@ claim("C04", "exploration",
       "Trusted: the model in incrate/wscript.rs; scripted readers never lower their ACKNACK base; timer steps wait 3 ms of real time per step (verdict independent of the duration).",
       "DESIGN.md section 2, C04")
 claim("C20", "exploration",
-      "stateful property-based testing: the writer script with WaitForAcknowledgments commands at any point; the completion channel is compared with a model after every step",
-      "Writer level (deterministic): generated histories of writes, ACKNACKs with bases around last / last+1 / last+2, reader match and loss, and WaitForAcknowledgments commands (also repeated) against the real Writer; after every step the completion channel must hold a token exactly when the model says that every reliable reader matched at the call has acknowledged everything written before the call or was lost - never earlier, and in the same step when already true at the call.",
-      "Trusted: the model in incrate/wscript.rs. The public DataWriter::wait_for_acknowledgments / async_wait_for_acknowledgments wrappers are exercised in a separate scenario once the DataWriter front-end exists (see DESIGN.md).",
+      "stateful property-based testing: the writer script with WaitForAcknowledgments commands at any point; the completion channel and the return values of the public sync / async calls are compared with a model",
+      "Writer level (deterministic): generated histories of writes, ACKNACKs with bases around last / last+1 / last+2, reader match and loss, and WaitForAcknowledgments commands (also repeated) against the real Writer; after every step the completion channel must hold a token exactly when the model says that every reliable reader matched at the call has acknowledged everything written before the call or was lost - never earlier, and in the same step when already true at the call. "
+      "API level: a real DataWriter wired to the rig Writer: async_wait_for_acknowledgments polled by a strict executor (only when woken) must be Pending exactly while the model's condition is false and Ready(true) as soon as the writer has processed the deciding event; the blocking form runs on a helper thread in three timing-robust shapes (already true -> true; never true -> false not before the requested 150 ms; becomes true during the wait -> true).",
+      "Trusted: the model in incrate/wscript.rs and incrate/c20_waitack.rs. The blocking shapes use real time with wide margins (10 s for 'promptly', 145 ms lower bound for a 150 ms timeout).",
       "DESIGN.md section 2, C20")
+
+claim("C13", "exploration",
+      "schedule exploration: a cooperative yield-point scheduler owns the interleaving of the two real threads (event-loop side and application side); decisions are generated (and, for short scenarios, enumerated exhaustively); the oracle is 'data present and consumer idle implies a wake-up or notification was delivered'",
+      "Eight scenarios put the producer side (Reader::notify_cache_change / Writer command processing) and the consumer side (SimpleDataReader / DataReader async streams, mio-0.6 and mio-0.8 event sources, DataWriter::async_write with a full queue, async_wait_for_acknowledgments) on two OS threads that only run when the scheduler hands them the token at guarded yield points placed between 'insert', 'notify', 'look at waker', 'store waker', 'take'. "
+      "The consumer is a strict executor / strict poller: it polls only after a wake-up (or readiness event), and at the end the case fails if unread data (or queue room / completion) exists while the consumer sleeps with no wake-up pending. Switch decisions come from the choice bytes; an exhaustive DFS enumerates all switch vectors for the short scenarios.",
+      "Trusted: the yield points cover the racing steps (they sit at every access of the shared waker slot, notification channel and cache in the code paths used); real OS preemption between yield points is not explored. The mio event sources are polled with a zero timeout after the producer has finished, so readiness must already be latched.",
+      "DESIGN.md section 2, C13")
 
 claim("C02", "exploration",
       "fault-injection property-based testing: generated fault plans (drop / duplicate / delay per datagram) over a bounded run of a real Writer and 1-2 real Readers, followed by fault-free rounds; liveness decided as a fixpoint test on a projection of the protocol state, plus a quietness check",
